@@ -110,6 +110,17 @@ def check(chk, repo, tier):
     from .c06 import memo_keys  # noqa: PLC0415
     memo_keys(chk, repo, "C03")
     n = law_payload_opaque(chk, lp, fr, "C03.lexer-payload-opaque", LF)
+    # every further lexer mode (a switch parameter of tokenise) is a lexer
+    # of its own: its literal forms are discovered and held to the same law
+    for m in range(1, len(lp.mode_names)):
+        with lp.in_mode(m):
+            frm = Frames(lp)
+            n += law_payload_opaque(chk, lp, frm, "C03.lexer-payload-opaque",
+                                    LF, tag=f" [mode {lp.mode_names[m]}]")
+        chk.unit(f"literal forms in lexer mode {lp.mode_names[m]}", {
+            "delimited": frm.delimited, "one-character": frm.prefix1,
+            "two-character": frm.prefix2, "comment": frm.comment,
+            "block comment": frm.block_comment})
     law_total(chk, lp, "C03.lexer-total", LF)
     from ..lexlaws import law_stateless  # noqa: PLC0415
     law_stateless(chk, lp, "C03.lexer-stateless", LF)
